@@ -216,6 +216,47 @@ func blkAssoc(r *vh.Rand, id int) block {
 	return block{"assoc", sb.String()}
 }
 
+// array functions on string-keyed arrays (they walk the property store of the array)
+func blkArrayFn(r *vh.Rand, id int) block {
+	var sb strings.Builder
+	mk := func(v string, n int) []string {
+		names := pickNames(r, n)
+		var kv []string
+		for _, nm := range names {
+			kv = append(kv, fmt.Sprintf("'%s' => %s", nm, vh.Pick(r, []string{"1", "2", "3", "'x'", "'y'", "2", "'x'"})))
+		}
+		fmt.Fprintf(&sb, "%s = [%s];\n", v, strings.Join(kv, ", "))
+		return names
+	}
+	a, b := fmt.Sprintf("$fa%d", id), fmt.Sprintf("$fb%d", id)
+	mk(a, r.Range(2, 9))
+	mk(b, r.Range(2, 6))
+	show := "foreach (%s as $k => $x) { echo $k, '=', json_encode($x), ';'; }\n"
+	for i := 0; i < r.Range(1, 3); i++ {
+		switch r.Intn(9) {
+		case 0:
+			fmt.Fprintf(&sb, "echo json_encode(array_values(%s)), \"\\n\";\n", a)
+		case 1:
+			fmt.Fprintf(&sb, show, fmt.Sprintf("array_merge(%s, %s)", a, b))
+		case 2:
+			fmt.Fprintf(&sb, show, fmt.Sprintf("array_replace(%s, %s)", a, b))
+		case 3:
+			fmt.Fprintf(&sb, show, fmt.Sprintf("array_slice(%s, 1, 3)", a))
+		case 4:
+			fmt.Fprintf(&sb, show, fmt.Sprintf("array_unique(%s)", a))
+		case 5:
+			fmt.Fprintf(&sb, show, fmt.Sprintf("array_merge_recursive(%s, %s)", a, b))
+		case 6:
+			fmt.Fprintf(&sb, show, fmt.Sprintf("array_replace_recursive(%s, %s)", a, b))
+		case 7:
+			fmt.Fprintf(&sb, "ksort(%s); "+show, a, a)
+		case 8:
+			fmt.Fprintf(&sb, "echo json_encode(array_keys(%s)), json_encode(array_key_first(%s)), \"\\n\";\n", a, a)
+		}
+	}
+	return block{"arrayfn", sb.String()}
+}
+
 // class names resolved with a different case, including two classes that differ only by case
 func blkClassCase(r *vh.Rand, id int) block {
 	var sb strings.Builder
@@ -393,7 +434,10 @@ func blkIface(r *vh.Rand, id int) block {
 // terminal blocks: the program ends here with a diagnostic and a non-zero status
 func blkFatal(r *vh.Rand, id int) block {
 	var sb strings.Builder
-	switch r.Intn(4) {
+	switch r.Intn(5) {
+	case 4: // static initialisers of an anonymous class: which failing one is reported
+		fmt.Fprintf(&sb, "$an%d = new class { public static $a = c20_undef_a(1); public static $b = c20_undef_b(2); public static $c = c20_undef_c(3); public static $d = c20_undef_d(4); public $z = 1; };\n", id)
+		return block{"fatal-anonstatic", sb.String()}
 	case 0: // several unimplemented abstract methods: the message lists them
 		fmt.Fprintf(&sb, "abstract class Fa%d { abstract function zeta(); abstract function alpha(); abstract function mid(); abstract function beta(); }\n", id)
 		fmt.Fprintf(&sb, "class Fc%d extends Fa%d { function mid() { return 1; } }\n$x = new Fc%d();\n", id, id, id)
@@ -409,7 +453,7 @@ func blkFatal(r *vh.Rand, id int) block {
 	return block{"fatal-undefined", sb.String()}
 }
 
-var blockMakers = []func(*vh.Rand, int) block{blkObjProps, blkObjProps, blkStdClass, blkAssoc, blkAssoc, blkClassCase, blkCodec, blkClosure, blkStrtr, blkSpl, blkStatic, blkIface}
+var blockMakers = []func(*vh.Rand, int) block{blkObjProps, blkObjProps, blkStdClass, blkAssoc, blkAssoc, blkArrayFn, blkArrayFn, blkClassCase, blkCodec, blkClosure, blkStrtr, blkSpl, blkStatic, blkIface}
 
 func genOwn(r *vh.Rand) genProg {
 	n := r.Range(1, 5)
